@@ -154,3 +154,96 @@ func containsStr(s, sub string) bool {
 	}
 	return false
 }
+
+// runStraddle: one rewrite is enough when a record straddles the end of the
+// last 512 KiB window that still compares equal. 200 string objects of 8 KiB in
+// the spelling of the rewrite; the record across the 512 KiB mark is overwritten
+// with a value of the same length that differs only behind the mark, its
+// successor is deleted (so everything behind moves), AOFSHRINK, the follower
+// re-synchronises. It must not keep the tail of its own old record: what lies
+// behind the compared window was never compared.
+func runStraddle(ctx *core.Ctx, bin string) {
+	leader, err := srv.Start(srv.Opts{Bin: bin})
+	if err != nil {
+		ctx.Inconclusive(err.Error())
+		return
+	}
+	defer leader.Kill9()
+	follower, err := srv.Start(srv.Opts{Bin: bin})
+	if err != nil {
+		ctx.Inconclusive(err.Error())
+		return
+	}
+	defer follower.Kill9()
+	lc, e1 := dial(leader)
+	fc, e2 := dial(follower)
+	if e1 != nil || e2 != nil {
+		ctx.Inconclusive("straddle: dial")
+		return
+	}
+	defer lc.Close()
+	defer fc.Close()
+	lc.Timeout = 60 * time.Second
+	host, port, _ := net.SplitHostPort(leader.Addr())
+	if r, err := fc.Do("FOLLOW", host, port); err != nil || r.IsErr() {
+		ctx.Inconclusive("straddle: FOLLOW failed")
+		return
+	}
+	r := ctx.SubRng(4242)
+	payload := func(n int) string {
+		const abc = "abcdefghijklmnopqrstuvwxyzABCDEFGHIJKLMNOPQRSTUVWXYZ0123456789"
+		b := make([]byte, n)
+		for i := range b {
+			b[i] = abc[r.Intn(len(abc))]
+		}
+		return string(b)
+	}
+	const n, size, block = 200, 8192, 512 * 1024
+	vals := make([]string, n)
+	off, straddle := 0, -1
+	for i := 0; i < n; i++ {
+		vals[i] = payload(size)
+		cmd := []string{"set", "k", fmt.Sprintf("id%04d", i), "string", vals[i]}
+		l := len(respc.Encode(cmd...))
+		if off < block && off+l > block {
+			straddle = i
+		}
+		off += l
+		if rp, err := lc.Do(cmd...); err != nil || rp.IsErr() {
+			ctx.Inconclusive("straddle: load failed")
+			return
+		}
+	}
+	if straddle < 0 {
+		ctx.Inconclusive("straddle: no record across the 512 KiB mark")
+		return
+	}
+	if ok, why := quiescentCopy(leader, follower, 30*time.Second); !ok {
+		ctx.Inconclusive("straddle: first synchronisation: " + why)
+		return
+	}
+	id := fmt.Sprintf("id%04d", straddle)
+	newval := vals[straddle][:size-1000] + payload(1000)
+	lc.Do("set", "k", id, "string", newval)
+	lc.Do("del", "k", fmt.Sprintf("id%04d", straddle+1))
+	if ok, why := quiescentCopy(leader, follower, 30*time.Second); !ok {
+		ctx.Inconclusive("straddle: the overwrite did not arrive: " + why)
+		return
+	}
+	if rp, err := lc.Do("AOFSHRINK"); err != nil || rp.IsErr() {
+		ctx.Inconclusive("straddle: AOFSHRINK refused")
+		return
+	}
+	time.Sleep(300 * time.Millisecond)
+	for dl := time.Now().Add(60 * time.Second); time.Now().Before(dl); time.Sleep(100 * time.Millisecond) {
+		if rp, err := lc.Do("INFO", "persistence"); err == nil && !containsStr(rp.Text(), "aof_rewrite_in_progress:1") {
+			break
+		}
+	}
+	time.Sleep(1500 * time.Millisecond) // the rewrite drops the replication connection; the follower reconnects
+	ctx.Eval(1)
+	ctx.Distinct("straddle-after-rewrite")
+	if ok, why := quiescentCopy(leader, follower, 40*time.Second); !ok {
+		ctx.Violation("stale-straddling-record", fmt.Sprintf("200 strings of 8 KiB, the record across the 512 KiB mark (%s) overwritten with a value of the same length that differs only in its last 1000 bytes, its successor deleted, AOFSHRINK: the re-synchronised follower is not a copy: %s", id, clipStr(why, 400)), map[string]any{"scenario": "straddle", "id": id})
+	}
+}
